@@ -294,18 +294,18 @@ def arrayStep2 (s : Store) (toks : List String) : Option (Store × String) :=
         else (s, "err")
       | _, _, _, _ => (s, "err"))
   | ["absi", x] =>
-    -- `x.abs(inplace=True)`: written into x's own buffer
-    some (match s.harr? x with
-      | some (d, v) =>
-        let nv := ((s.readView v).map ratAbs).memo 0
-        (s.writeView v nv, "ok " ++ showArr ⟨d, nv⟩)
-      | none => (s, "err"))
+    -- `x.abs(inplace=True)`: `self.values = np.abs(self.values)` — the array gets a new buffer
+    some (match parseHandle? x, s.arr? x with
+      | some hn, some a =>
+        let nx : FArr Rat := ⟨a.dims, (a.values.map ratAbs).memo 0⟩
+        (s.putFresh hn nx, "ok " ++ showArr nx)
+      | _, _ => (s, "err"))
   | ["signi", x] =>
-    some (match s.harr? x with
-      | some (d, v) =>
-        let nv := ((s.readView v).map ratSign).memo 0
-        (s.writeView v nv, "ok " ++ showArr ⟨d, nv⟩)
-      | none => (s, "err"))
+    some (match parseHandle? x, s.arr? x with
+      | some hn, some a =>
+        let nx : FArr Rat := ⟨a.dims, (a.values.map ratSign).memo 0⟩
+        (s.putFresh hn nx, "ok " ++ showArr nx)
+      | _, _ => (s, "err"))
   | ["probe_write", x, pos, c] =>
     -- write into the values of one array (`x.values.flat[pos] = c`): only that array changes
     some (match s.harr? x, pos.toNat?, parseRat? c with
@@ -356,6 +356,9 @@ def dimsStep (s : Store) (toks : List String) : Option (Store × String) :=
     | "diff", _ => bin (fun x y => some (differenceWith x y))
     | "xor", _ => bin xor?
     | "add", _ => bin add?
+    -- `Dimension + DimensionSet` (= the one-element set plus the other) and `Dimension + Dimension`
+    | "dimadd", [h, d, b] => some (putDset s h (do add? [← s.dim? d] (← s.dset? b)))
+    | "dimadd2", [h, d1, d2] => some (putDset s h (do DimSet.mk? [← s.dim? d1, ← s.dim? d2]))
     | "subset", h :: a :: keys => some (putDset s h (do getSubset? (← s.dset? a) (some keys)))
     | "copy", [h, a] => some (putDset s h (s.dset? a))
     | "subsetnone", [h, a] => some (putDset s h (do getSubset? (← s.dset? a) none))
